@@ -551,6 +551,42 @@ def q5(e: Engine, rep: Report):
         if local:
             lp = local[0]
             upper, defn = snaps[iter_path(lp)]
+            # the captured list is dispatched as it was captured: nothing
+            # takes entries out of it on the way to the loop
+            lname = lp.ast.iter.id if isinstance(lp.ast.iter, ast.Name) \
+                else None
+            if lname is not None:
+                shr = []
+                for n2 in g.nodes:
+                    if n2.frame is not lp.frame:
+                        continue
+                    a2 = n2.ast
+                    if n2.kind == 'stmt' and isinstance(a2, ast.Delete) and \
+                            any(isinstance(t, ast.Subscript) and
+                                isinstance(t.value, ast.Name) and
+                                t.value.id == lname for t in a2.targets):
+                        shr.append(n2)
+                    if n2.kind == 'stmt' and isinstance(a2, ast.Assign) and \
+                            any(isinstance(t, ast.Subscript) and
+                                isinstance(t.value, ast.Name) and
+                                t.value.id == lname for t in a2.targets):
+                        shr.append(n2)
+                    if n2.kind == 'call' and \
+                            isinstance(a2.func, ast.Attribute) and \
+                            isinstance(a2.func.value, ast.Name) and \
+                            a2.func.value.id == lname and a2.func.attr in (
+                                'pop', 'remove', 'clear', 'popleft'):
+                        shr.append(n2)
+                rep.evaluations += 1
+                rep.check(not shr, 'Q5', where,
+                          'the removed entries are dispatched as captured',
+                          '`%s` takes entries out of `%s` after they were '
+                          'removed from the timetable and before they are '
+                          'dispatched: those entries are in neither place '
+                          'any more - stored, due, and never attempted'
+                          % (shr[0].text(40) if shr else '', lname),
+                          loc=shr[0].loc() if shr else lp.loc(),
+                          reason='no deletion from the captured list')
             counts = common.per_iteration_counts(
                 g, lp, lambda n: 1 if _spawns_dequeue(e, n) else 0)
             rep.check(counts == frozenset([1]), 'Q5', where,
